@@ -17,6 +17,9 @@ def run(ctx):
         # every write is re-encoded by the consistency override: pipelined and retried requests must still carry their own bodies
         ("override-3x1", ["-random", n(600, 4000), "-nodes", "3", "-numconns", "1", "-clients", "4", "-workers", "8", "-round", "300", "-delay", "4",
                           "-override", "-okbias", "2", "-nodrops"], False),
+        # short-lived clients hang up with requests in flight while others connect and query
+        ("client-churn-3x1", ["-random", n(900, 4000), "-nodes", "3", "-numconns", "1", "-clients", "4", "-workers", "4", "-round", "300", "-delay", "3",
+                              "-churn", "12", "-okbias", "4", "-nodrops"], False),
         ("scripted-3x1", ["-nodes", "3", "-numconns", "1", "-clients", "4", "-workers", "4", "-round", "160"], True),
     ]
     rf.run_property(ctx, "C02", plans, nscen=300)
